@@ -13,7 +13,7 @@ Definition hostile : archive :=
      ar_fail := None |}.
 Definition scn : scenario :=
   {| s_init := [(p "immutable/00001.chunk", 11)]; s_beacon := 2; s_range := RRange 2 2; s_allow_override := true;
-     s_anc := false; s_vk := None; s_net_known := false; s_imm := [(2, [Some hostile])]; s_anc_locs := []; s_tbl := [] |}.
+     s_anc := false; s_vk := None; s_net_known := false; s_par := 1; s_imm := [(2, [Some hostile])]; s_anc_locs := []; s_tbl := [] |}.
 
 (* C19-foreign-entry: a ledger file from an IMMUTABLE archive stays in the restored database although
    no ancillary download was requested and nothing vouches for it *)
@@ -50,4 +50,51 @@ Proof.
     + destruct H as (rg & n & ext & a & _ & _ & _ & Hp & _). cbn [fst] in Hp. vm_compute in Hp.
       injection Hp as Hp _. discriminate.
     + destruct H as (H & _). vm_compute in H. discriminate.
+Qed.
+
+(* C19-aborted-ancillary-temp: several downloads at a time, the archive of immutable 0 cannot be fetched,
+   the batch is aborted while the ancillary archive is being unpacked: its files - never verified, here
+   there is not even a manifest - stay in the temporary directory inside the target directory *)
+Definition anc_unverified : archive :=
+  {| ar_entries := [(p "ledger/777/state", 90); (p "volatile/blocks-0.dat", 91)]; ar_fail := None |}.
+Definition scn_abort : scenario :=
+  {| s_init := [(p "myfile.txt", 5)]; s_beacon := 1; s_range := RFull; s_allow_override := true;
+     s_anc := true; s_vk := Some 1; s_net_known := true; s_par := 20;
+     s_imm := [(0, [None]); (1, [Some (ex_imm 1 20)])]; s_anc_locs := [Some anc_unverified]; s_tbl := [] |}.
+Theorem C19_refuted_aborted_ancillary :
+  fst (download_unpack_aborted scn_abort 2 anc_unverified) = false /\
+  lookup (snd (download_unpack_aborted scn_abort 2 anc_unverified)) (TEMP ++ p "ledger/777/state") = Some 90 /\
+  lookup (s_init scn_abort) (TEMP ++ p "ledger/777/state") = None /\
+  (forall id, tbl_get (s_tbl scn_abort) id = None) /\
+  (* one download at a time: the same mirror leaves nothing but the user's file *)
+  snd (download_unpack {| s_init := s_init scn_abort; s_beacon := 1; s_range := RFull; s_allow_override := true;
+         s_anc := true; s_vk := Some 1; s_net_known := true; s_par := 1; s_imm := s_imm scn_abort;
+         s_anc_locs := s_anc_locs scn_abort; s_tbl := [] |}) = [(p "myfile.txt", 5)].
+Proof. repeat (split; [vm_compute; reflexivity|]). vm_compute; reflexivity. Qed.
+
+(* C19-manifest-hash-ambiguity: keys and values are hashed back to back.  The signed manifest lists
+   ledger/7/state (content 50) and volatile/b (content 51); the served one lists ONE file whose name is
+   "ledger/7/state" ++ hex digest of content 50 ++ "volatile/b", with the digest of content 51.  Same
+   stream, same hash: the signature of the first verifies for the second, and the download puts a file at
+   a path the signed manifest does not list. *)
+Definition m_signed : manifest :=
+  {| m_data := [(p "ledger/7/state", file_digest 50); (p "volatile/b", file_digest 51)]; m_sig := None |}.
+Definition resplit_key : path := p "ledger/7/state" ++ [HEXTOK 50] ++ p "volatile/b".
+Definition m_served : manifest :=
+  {| m_data := [(resplit_key, file_digest 51)]; m_sig := Some (SigOf 1 (manifest_hash m_signed)) |}.
+Definition scn_resplit : scenario :=
+  {| s_init := []; s_beacon := 0; s_range := RFull; s_allow_override := true; s_anc := true; s_vk := Some 1;
+     s_net_known := false; s_par := 1; s_imm := [(0, [Some (ex_imm 0 10)])];
+     s_anc_locs := [Some {| ar_entries := [(resplit_key, 51); (p "ancillary_manifest.json", 77)]; ar_fail := None |}];
+     s_tbl := [(77, m_served)] |}.
+Theorem C19_refuted_manifest_resplit :
+  m_data m_served <> m_data m_signed /\
+  manifest_hash m_served = manifest_hash m_signed /\
+  fst (download_unpack scn_resplit) = true /\
+  lookup (snd (download_unpack scn_resplit)) resplit_key = Some 51 /\
+  ~ In resplit_key (map fst (m_data m_signed)).
+Proof.
+  split; [intros H; vm_compute in H; discriminate|].
+  repeat (split; [vm_compute; reflexivity|]).
+  intros H. vm_compute in H. destruct H as [H|[H|[]]]; discriminate.
 Qed.
